@@ -22,6 +22,9 @@ def shapes():
     out.append(("window2-start2", [("a", A2)], "window", 2, 1, 2))
     out.append(("window2x2-start0", [("a", A2), ("b", ["x", "y"])], "window", 2, 1, 0))      # two source factors, early start: None history in both
     out.append(("window1-stride2", [("a", A2)], "window", 1, 2, None))
+    # the source is a WEIGHTED factor outside the crossing (rebuilt internally): the early start must survive the rebuilding
+    out.append(("window2-start0-weighted-uncrossed", [("a", [["r", 2], ["g", 1]])], "window", 2, 1, 0))
+    out.append(("window3-start1-weighted-uncrossed", [("a", [["r", 2], ["g", 1]])], "window", 3, 1, 1))
     return out
 
 
@@ -32,7 +35,7 @@ def keys_for(deps, width, start):
     for _, lv in deps:
         opts = []
         for pos in range(width):
-            o = list(lv)
+            o = [l[0] if isinstance(l, (list, tuple)) else l for l in lv]      # weighted levels are [name, weight]
             if start is not None and start - width + pos + 1 < 0:
                 o = o + [None]
             opts.append(o)
@@ -43,11 +46,15 @@ def keys_for(deps, width, start):
 def make(shape, table, else_level, idx):
     name, deps, kind, width, stride, start = shape
     facs = [DS.fac(n, lv) for n, lv in deps]
+    if name.endswith("-uncrossed"):          # cross another factor instead of the first source
+        facs.append(DS.fac("q", ["u", "v"]))
     levels = ["A", "B"]
     dv = dict(kind=kind, deps=[n for n, _ in deps], width=width, stride=stride, start=start, table=table, **{"else": else_level})
     facs.append({"name": "z", "levels": [[l, 1] for l in levels], "derive": dv})
     design = [n for n, _ in deps] + ["z"]
     cons = [["MinimumTrials", 4]] if len(deps) == 1 and len(deps[0][1]) < 4 else []
+    if name.endswith("-uncrossed"):
+        return DS.D(f"{name}-{idx}", facs, DS.cross(design + ["q"], ["q"], cons), ["c15", name])
     return DS.D(f"{name}-{idx}", facs, DS.cross(design, [deps[0][0]], cons), ["c15", name])
 
 
